@@ -264,7 +264,10 @@ def mechanism(builder, node, v, opts):
             except Exception:
                 pass
         kk = "or" if k == "opt" else k
-        if k != "xor" and acc >= 2:
+        lenient = any(opts.get(p_) in ("exclude", "preserve") for p_ in ("invalid_items", "invalid_keys", "invalid_values"))
+        if k != "xor" and acc >= 2 and not lenient:
+            # (under an exclude / preserve policy an argument "accepts" by dropping or keeping offending elements, and the
+            # preliminary stages do not apply the policy the way the last one does: the prediction below is not defined there)
             # the listed finding is *staged re-resolution*: the documented stages (exact type; strict; no-loss; as given; arguments in
             # order within a stage) applied to the OUTPUT pick another argument than they did for the input.  It only explains a
             # re-parse whose result is what that staged procedure predicts; anything else is a different defect.
